@@ -42,7 +42,8 @@ def vectors(kind):
         # push/pop with library functions is a recorded known finding (C13-pushpop-library-exit): not in the explored vectors;
         # programs with equal function names in several modules are not explored under remove_labels (C05-prefix-names)
         return [dict(BASE), dict(BASE, inline_functions=False), dict(BASE, inline_functions=False, compact=True),
-                dict(BASE, inline_functions=False, tail_call_optimization=True), dict(BASE, tail_call_optimization=True)]
+                dict(BASE, inline_functions=False, tail_call_optimization=True), dict(BASE, tail_call_optimization=True),
+                dict(BASE, original_code_as_comment=True)]
     if kind == "modules-rl":
         return [dict(BASE), dict(BASE, remove_labels=True), dict(BASE, inline_functions=False), dict(BASE, inline_functions=False, compact=True, remove_labels=True)]
     if kind == "labels":
@@ -304,6 +305,22 @@ def full_task(task):
             if info and info.get("main_end_reached"):
                 rec.setdefault("main_end", []).append({"options": opts, "effects_at_main_end": info.get("effects_at_main_end")})
                 rec["fails"].setdefault("C07a", []).append({"what": "main code reaches its end and falls through into the first function region", "options": opts, "sources": sources, "code": code})
+    if "C04" in want:
+        # allocation validator: liveness over the virtual registers of the instruction list the real assign_registers gets
+        from bounded import liveness
+
+        for opts in vectors(vkind)[:3]:
+            try:
+                res2, rows = liveness.capture(sources, opts)
+            except Exception:  # the compilation itself is judged by the other postconditions
+                continue
+            if rows is None or "code" not in res2:
+                continue
+            rec["n_liveness"] = rec.get("n_liveness", 0) + 1
+            probs = liveness.analyse(rows)
+            if probs:
+                fail("C04", "two simultaneously live values share a register: " + probs[0], opts, res2)
+                break
     if "C05" in want:
         by = {}
         for opts, res in outs:
